@@ -77,13 +77,15 @@ Fixpoint scrub_spec (d : nat) (gs : list grp) : list grp :=
 
 (* the repaired code (fixes/C05-pg-iterate-over-copy.patch): `for property_group in list(self._property_groups):`
    iterates a snapshot: every group of the snapshot is visited once (a group only ever removes itself from the list) *)
+Fixpoint index_of (g : nat) (gs : list grp) : option nat :=
+  match gs with
+  | [] => None
+  | (h, _) :: r => if Nat.eqb g h then Some 0 else option_map S (index_of g r)
+  end.
 Definition visit_id (d : nat) (gs : list grp) (g : nat) : list grp :=
-  match find (fun p => Nat.eqb (fst p) g) gs with
+  match index_of g gs with
   | None => gs
-  | Some (_, l) =>
-      let l' := remove_first d l in
-      let gs1 := map (fun p => if Nat.eqb (fst p) g then (g, l') else p) gs in
-      if is_nil l' then remove_grp g gs1 else gs1
+  | Some i => match nth_error gs i with Some (_, l) => scrub_visit d gs i g l | None => gs end
   end.
 Definition scrub_snap (d : nat) (gs : list grp) : list grp := fold_left (visit_id d) (map fst gs) gs.
 
